@@ -35,8 +35,33 @@ def kind_table(rng):
     return ops
 
 
+def boundary_table(rng):
+    """Word boundaries: 2^63, 2^64, 2^31, 2^32, 2^53 and their neighbours in every representation that holds them exactly,
+    against each other and against the values machine conversions alias them with (wrapped, saturated, negated)."""
+    ops = []
+    B = [2**63, -2**63, 2**63 - 1, 2**64, 2**64 - 1, 2**32, 2**31, -2**31, 2**53, 2**53 + 1, 2**63 - 1024, -2**63 - 1, 0, -1, 1]
+    kinds = ["int64", "uint64", "int", "uint", "int32", "uint32", "float64", "float32", "jnum", "myint"]
+    reps = []
+    for b in B:
+        for k in kinds:
+            d = gv.represent_as(rng, gv.Num(str(b)), k)
+            if d is not None:
+                reps.append((b, d))
+    for (bx, dx) in reps:
+        for (by, dy) in reps:
+            if dx["t"] == dy["t"] and bx != by and rng.random() < 0.5:
+                continue
+            if bx == by or abs(bx) >= 2**31 or abs(by) >= 2**31:
+                wrap = rng.choice([0, 0, 1, 2])
+                x, y = dx, dy
+                for _ in range(wrap):
+                    x, y = {"t": "[]any", "v": [x]}, {"t": "[]any", "v": [y]}
+                ops.append({"op": "equal", "args": {"x": x, "y": y}, "meta": {"expect": bx == by, "table": True}})
+    return ops
+
+
 def gen(rng, tier, n):
-    ops = kind_table(rng)
+    ops = kind_table(rng) + boundary_table(rng)
     depth = 3 if tier == "quick" else 4
     while len(ops) < n:
         j1 = gv.gen_json(rng, depth)
